@@ -46,6 +46,16 @@ class Labelled(Expression):
 
 
 @expr_dataclass()
+class Annotated(Expression):
+    """a user node type with a field declared `compare=False` in the MIDDLE of the field list and a
+    defaulted field after it: whatever the generated methods make of the flag, every field must
+    survive copying / pickling under its own name"""
+    child: object
+    note: str = dataclasses.field(compare=False)
+    scope: str = "s"
+
+
+@expr_dataclass()
 class Unit(Expression):
     """a user node type without fields"""
 
@@ -80,7 +90,7 @@ class LegacyVar(Variable):
     mapper_method = "map_legacy_var"
 
 
-USER_CLASSES = {c.__name__: c for c in (Norm, Labelled, Unit, LegacyPair, LegacyVar)}
+USER_CLASSES = {c.__name__: c for c in (Norm, Labelled, Annotated, Unit, LegacyPair, LegacyVar)}
 
 # }}}
 
